@@ -18,6 +18,8 @@ from harness import common as C
 PROP = "C09"
 TARGETS = ["IbicusModel.Props.C09"]
 GEN = ["Debiasers", "StatsKernels", "IsimipFreq"]
+TARGETS += ["IbicusModel.Props.Capstone3"]  # capstone 3: C09 stated on the denotation of the regenerated per-window pieces (Gen.Debiasers kernels, Gen.DebWin programs, Gen.IsimipStep6.step6 / apply_on_window); the audit imports it
+GEN += ["Loops", "GridLoops", "DebWin", "Debiasers", "IsimipStep6"]  # the groups capstone 3 (through Props.Capstone) composes (lean_phase regenerates every transitively imported group anyway)
 
 ECDF_METHODS = ["step_function", "linear_interpolation", "kernel_density"]
 IECDF_METHODS = ["inverted_cdf", "averaged_inverted_cdf", "closest_observation", "interpolated_inverted_cdf", "hazen",
